@@ -111,6 +111,26 @@ CHECKS["C18"] = dict(level="model_checking", ref="DESIGN.md §4 C18, §9",
          "event.* / sub.* exist in the code) and remote subscribers are not bound yet.",
     tech="TLA+ reference Events evaluated by TLC as oracle over recorded histories of a real node (trace validation)")
 
+CHECKS["C12"] = dict(level="model_checking", ref="DESIGN.md §4 C12, §9",
+    text="TLA+ oracle Net (expected outcome of every send: placed exactly once at the addressee with the true sender and an equal payload; nowhere when the "
+         "target is unknown or its mailbox full; refused at the sender beyond the peer's limit; important sends/requests report 'ok' exactly when placed, else "
+         "the remote reason; replies equal) evaluated by TLC over histories recorded on two real nodes connected through a relay that carries every pooled TCP "
+         "link, cuts the byte stream into segments of 1..4096 bytes and delays links: systematic cases (pid/name/alias x plain/important x send/request x "
+         "none/gzip/zlib/lzw x sizes around buffer and 64 KiB boundaries x peer limit) and seeded random cases with two concurrent senders.",
+    note="Trusted: TLC, the relay. Compressed payloads within a factor two of the peer's limit may be refused or delivered (compressed size is not modelled). Events "
+         "and remote spawn payloads are not part of the cases; the receive-queue lock/unlock kernel is exercised only by free-running traffic, not by controlled schedules.",
+    tech="TLA+ oracle Net evaluated by TLC over recorded delivery histories of two real nodes behind a segmenting relay (trace validation)")
+
+CHECKS["C13"] = dict(level="model_checking", ref="DESIGN.md §4 C13, §9",
+    text="TLA+ model NetOrder of the path of one pair's messages (order byte -> pooled link, per-link FIFO with arbitrary relative delay, receive queue by the "
+         "receiver's residue, one worker per queue, Join/remove of links) is model-checked exhaustively for small constants: PairFifo holds for non-zero residues "
+         "on a stable pool and TLC produces the counterexamples for residue 0 and for a changing pool. The same configurations are driven on two real nodes "
+         "through the delaying relay (streams of 50-1500 numbered messages per pair, several pairs at once, pool sizes 1-6, link-0 / rotating delays, links "
+         "joining during the stream, one link cut); spec/Net.tla judges every recorded arrival sequence (increasing, no duplicate, complete when nothing was cut).",
+    note="Trusted: TLC, the relay. The two model counterexamples are genuine defects of the code (known findings P11a, P11b, reproduced on the real nodes by every run); "
+         "a reordering in any other configuration is a violation. Re-dial of a cut link is exercised but the window between loss and re-dial is not controlled.",
+    tech="TLA+ model NetOrder model-checked by TLC; recorded per-pair arrival sequences of two real nodes behind a delaying relay validated by TLC against spec/Net.tla")
+
 NOT_YET = {
 }
 
